@@ -76,3 +76,28 @@ Proof.
       end. reflexivity.
 Qed.
 End JoinRefine.
+
+(* ---- outside the domain: finding F7 ------------------------------------------------------------- *)
+Definition jh : str := [104%N].
+Definition jst : mstate := MS (<[jh := HList [EStr [97%N]; EStr [98%N]]]> ∅) 1 None.
+Definition jout (o : option (outcome (cres * mstate))) : option cres :=
+  match o with Some (Done (c, _)) => Some c | _ => None end.
+(* `array_join [a, b] #`: the separator is in class H (a # without a space: the rest of the rebuilt
+   line is a comment), `is_empty` gets no argument, answers true, and the trailing separator stays;
+   `array_join [a, b]` with the separator QUOTE SPACE x (class Q): the same.  The specification
+   says a#b and a QUOTE SPACE x b. *)
+Lemma array_join_F7_refuted :
+  DS.EvalSer.cls_H [35%N] = true /\ ok_arg [35%N] = false /\
+  jout (script_array_join DS.Expansion.env_empty [jh; [35%N]] jst) = Some (Cont (Some [97; 35; 98; 35]%N)) /\
+  (step_s rnd0 ord0 CArrayJoin [jh; [35%N]] jst).1 = Cont (Some [97; 35; 98]%N) /\
+  DS.EvalSer.cls_Q [34; 32; 120]%N = true /\
+  jout (script_array_join DS.Expansion.env_empty [jh; [34; 32; 120]%N] jst)
+    = Some (Cont (Some [97; 34; 32; 120; 98; 34; 32; 120]%N)).
+Proof. vm_compute. repeat split; reflexivity. Qed.
+(* inside the domain: multi-byte and empty items, multi-byte separator *)
+Lemma array_join_example :
+  let st := MS (<[jh := HList [EStr [233%N]; EStr []; ENum (-7); EStr [128512%N]]]> ∅) 1 None in
+  ok_arg jh = true /\ ok_arg [8364%N; 32%N] = true /\
+  jout (script_array_join DS.Expansion.env_empty [jh; [8364%N; 32%N]] st)
+  = Some (Cont (Some [233; 8364; 32; 8364; 32; 45; 55; 8364; 32; 128512]%N)).
+Proof. vm_compute. repeat split; reflexivity. Qed.
